@@ -132,6 +132,11 @@ func (k Keeper) IterateCompletedUnbondings(ctx context.Context, now time.Time, c
 			if err != nil {
 				return true, err
 			}
+			// The index is truncated to seconds: skip entries that complete later in this second,
+			// staking has not released their funds yet
+			if value.CompletionTime.After(now) {
+				return false, nil
+			}
 
 			return cb(id, value)
 		},
